@@ -402,10 +402,17 @@ func initRollingFileLogger(
 		normalMaxLevel = WarnLevel
 	}
 
+	// Without a logger-level layout the events reach the appenders unformatted,
+	// so the appenders need the layout a configured appender gets by default.
+	newLayout := func() Layout {
+		return &TextLayout{BaseLayout: BaseLayout{FileLineLength: 48}}
+	}
+
 	// Create appenders for the normal log file
 	appenders := []*AppenderRef{
 		{
 			Appender: &RollingFileAppender{
+				Layout:   newLayout(),
 				FileDir:  f.FileDir,
 				FileName: f.FileName,
 				Rotation: f.Rotation,
@@ -422,6 +429,7 @@ func initRollingFileLogger(
 	if f.Separate {
 		appenders = append(appenders, &AppenderRef{
 			Appender: &RollingFileAppender{
+				Layout:   newLayout(),
 				FileDir:  f.FileDir,
 				FileName: f.FileName + ".wf",
 				Rotation: f.Rotation,
